@@ -443,3 +443,15 @@ def who_may_call(ctx, rule, facts, key, allowed, why):
     return ctx.ob(rule, key, "who-may-call", not extra and bool(cs),
                   "%s is also called from %s (%s)" % (key, extra, why) if cs else "%s has no callers" % key,
                   sample="callers: %s" % [c.rsplit("::", 1)[-1] for c in cs])
+
+
+def router_querier(o):
+    """the fields {router, api, storage, block_info} of a RouterQuerier value, whether written as a struct literal or built
+    by RouterQuerier::new / Router::querier (constructor-like functions are expanded by the provenance engine; the call
+    forms are accepted too); None when `o` is not such a value"""
+    o = peel(o)
+    if o[0] == "agg" and o[1].startswith("app::RouterQuerier"):
+        return dict(o[2])
+    if o[0] == "call" and o[1] in ("app::RouterQuerier::new", "app::Router::querier") and len(o[2]) == 4:
+        return {"router": o[2][0], "api": o[2][1], "storage": o[2][2], "block_info": o[2][3]}
+    return None
